@@ -199,7 +199,7 @@ def sampler_config(s):
 def quick_alphabet(env, tier):
     a = [("circuit", k) for k in "abcp"] + [("param", v) for v in (env.R[1], env.L[1])] \
         + [("input", k) for k in ("10", "01", "11")] + [("ps", k) for k in ("none", "r0", "r1", "rX")] \
-        + [("pc", True), ("pc", False), ("read",), ("draw",)]
+        + [("pc", True), ("pc", False), ("read",), ("draw",), ("ps_inplace",)]
     if tier == "thorough":
         a += [("edit", "bs"), ("edit", "herald")]
     return a
@@ -211,6 +211,7 @@ def quick_apply(q, w, op):
     elif k == "param": w.par.set(op[1])
     elif k == "input": q.input_state = w.inputs[op[1]]
     elif k == "ps": q.post_select = mk_ps(op[1])
+    elif k == "ps_inplace": q.post_select.add(1, 1)      # a rule added to the object the sampler already holds
     elif k == "pc": q.photon_counting = op[1]
     elif k == "read": q.probability_distribution
     elif k == "draw": q.sample_N_outputs(2, seed=1)
@@ -253,7 +254,7 @@ def quick_config(q):
 # ---------------- Analyzer
 def analyzer_alphabet(env, tier):
     return [("circuit", k) for k in "abcd"] + [("ps", k) for k in ("none", "r0", "r1", "rX")] \
-        + [("analyze", "10", None), ("analyze", "01", "same"), ("analyze", "both", "swap"), ("analyze", "both", None)]
+        + [("ps_inplace",), ("analyze", "10", None), ("analyze", "01", "same"), ("analyze", "both", "swap"), ("analyze", "both", None)]
 
 
 def analyzer_call(an, w, which, exp):
@@ -271,6 +272,7 @@ def analyzer_apply(an, w, op):
     k = op[0]
     if k == "circuit": an.circuit = w.circ[op[1]]
     elif k == "ps": an.post_selection = mk_ps(op[1])
+    elif k == "ps_inplace": an.post_selection.add(1, 1)
     elif k == "analyze": analyzer_call(an, w, op[1], op[2])
     else: raise KeyError(op)
 
